@@ -56,6 +56,9 @@ FOCUS = {
  'B': 'keeper/binding.go, keeper/definition.go, keeper/fees.go',
  'C': 'keeper/invocation.go (request contexts, requests, responses, filters), keeper/state_change.go, keeper/module_service.go',
  'D': 'genesis.go, types/genesis.go, keeper/grpc_query.go, keeper/querier.go',
+ 'F': 'genesis.go (InitGenesis, ExportGenesis, PrepForZeroHeightGenesis) and types/genesis.go (ValidateGenesis): what is validated, normalised, ordered, cleaned up or refused around export / import',
+ 'G': 'keeper/params.go, types/params.go and every place where a module parameter is read (think of what happens to existing objects when governance changes a parameter, where the statements leave that open)',
+ 'H': 'the request-context lifecycle in keeper/invocation.go and abci.go: pause / start / kill / update and the expiry and new-batch handlers (think of earlier clean-up, different but valid ordering, extra rejections)',
  'E': 'types/keys.go (helpers only: the byte layout of every key must not change), types/invocation.go, types/binding.go, types/msgs.go (validation messages only), keeper/oracle_price.go, keeper/params.go',
 }
 
